@@ -2,14 +2,20 @@
 C06 — The topic store implements MQTT filter matching over any subscribe history.
 
 Property theorems only.  Model: `Model/Topics.lean` (tries of maps +
-`nextTopicLevel`, as repaired by the three `fix:` commits).  Specification:
-`Spec/Match.lean` (§4.7) and `Spec/TopicStore.lean`.
+`nextTopicLevel`, as repaired by the four `fix:` commits B1, B2, B5, B4).
+Specification: `Spec/Match.lean` (§4.7) and `Spec/TopicStore.lean`.
+
+Hypotheses.  `noEmptyLevel s`: no empty level (finding B3, the one deviation
+left).  `good s`: `noEmptyLevel s` and `s` does not begin with '$' - topics
+beginning with '$' are outside the property's quantifier (§4.7.2); the five
+entry points of `MemTopics` turn them away (`C06_dollar_topics_rejected`).  A
+'$' anywhere else is an ordinary character ("a/$b" is good).
 -/
 import Mqtt.Proofs.TopicsRetainedHistory
 
 namespace Mqtt.Properties.C06
 open Mqtt.Model.Topics Mqtt.Proofs.Topics Mqtt.Iface.Topics
-open Mqtt.Spec.Match (split validFilter validName topicMatches)
+open Mqtt.Spec.Match (split validFilter validName topicMatches dollar)
 
 /-- Re-subscribing the same subscriber at a node replaces its QoS, keeps one
 entry for it and leaves every other subscriber's entry as it was. -/
@@ -98,12 +104,13 @@ theorem C06_pruned_preserved (n : SNode) (ls : List Level) (hwf : WF n) (hp : Pr
 /-- Store refinement over histories.  `mrun` folds the driver's `modelStep`
 (the function the differential runs tie to topics/memtopics.go), `srun` folds
 the specification's `step`.  If no topic argument in the history has an empty
-level or a '$'-led level, the trie is well-formed and holds exactly the
-abstract store's subscriptions. -/
-theorem C06_store_refines (ops : List Op) (hg : ∀ op ∈ ops, good (opTopic op) = true) :
+level, the trie is well-formed and holds exactly the abstract store's
+subscriptions.  (Operations on topics beginning with '$' may occur in the
+history: the store turns them away, the specification ignores them.) -/
+theorem C06_store_refines (ops : List Op) (hg : ∀ op ∈ ops, noEmptyLevel (opTopic op) = true) :
     WF (mrun ops).sroot ∧
     (abs (mrun ops).sroot).Perm ((srun ops).subs.map (fun e => (split e.filter, e.sub, e.qos))) :=
-  ⟨(run_inv ops hg).wf, (run_inv ops hg).perm⟩
+  ⟨(run_inv_any ops hg).wf, (run_inv_any ops hg).perm⟩
 
 /-- The full statement of the subscribers part of C06 (all histories, all valid names). -/
 def C06_subscribers_full : Prop :=
@@ -123,16 +130,17 @@ theorem C06_subscribers_full_counterexample : ¬ C06_subscribers_full := by
   cases hr
   exact absurd hp.length_eq (by decide)
 
-/-- The part that holds: for every history and every name without empty and
-without '$'-led levels, `Subscribers` reports exactly the still-subscribed
-(subscriber, filter) pairs whose filter matches the name under section 4.7,
-each with QoS min(publish QoS, subscription QoS). -/
+/-- The part that holds: for every history without empty levels and every
+valid name without empty levels that does not begin with '$' (`good`),
+`Subscribers` reports exactly the still-subscribed (subscriber, filter) pairs
+whose filter matches the name under section 4.7, each with QoS min(publish QoS,
+subscription QoS). -/
 theorem C06_subscribers_partial (ops : List Op) (t : List UInt8) (q : Nat)
-    (hg : ∀ op ∈ ops, good (opTopic op) = true) (hgt : good t = true)
+    (hg : ∀ op ∈ ops, noEmptyLevel (opTopic op) = true) (hgt : good t = true)
     (hn : validName t = true) (hq : q ≤ 2) :
     ∃ r, (mrun ops).subscribers t q = some r ∧
       r.Perm (((srun ops).subs.filter (fun e => topicMatches e.filter t)).map (fun e => (e.sub, min q e.qos))) :=
-  subscribers_refines (mrun ops) (srun ops).subs t q (run_inv ops hg) hgt hn hq
+  subscribers_refines (mrun ops) (srun ops).subs t q (run_inv_any ops hg) hgt hn hq
 
 /-- the right-hand side is the specification's own answer -/
 theorem C06_spec_answer (s : Mqtt.Spec.TopicStore.S) (t : List UInt8) (q : Nat)
@@ -144,41 +152,66 @@ theorem C06_spec_answer (s : Mqtt.Spec.TopicStore.S) (t : List UInt8) (q : Nat)
   refine ⟨_, ?_, rfl⟩
   simp [Mqtt.Spec.TopicStore.step, hd, hq', hn]
 
-/-- An invalid filter is rejected without side effects (on the entries). -/
+/-- An invalid filter is rejected without side effects (on the entries) -
+whether or not it begins with '$'. -/
 theorem C06_invalid_filter_rejected (mt : MemTopics) (f : List UInt8) (q s : Nat)
-    (hwf : WF mt.sroot) (hg : good f = true) (hv : validFilter f = false) :
+    (hwf : WF mt.sroot) (hg : noEmptyLevel f = true) (hv : validFilter f = false) :
     (mt.subscribe 2 f q s).2 = none ∧ (abs (mt.subscribe 2 f q s).1.sroot).Perm (abs mt.sroot) := by
-  have hl := levels_invalid f hg hv
-  unfold MemTopics.subscribe SNode.sinsert
-  cases validQos q with
-  | false => exact ⟨rfl, List.Perm.refl _⟩
-  | true =>
-    simp only [Bool.not_true, Bool.false_eq_true, ↓reduceIte, hl]
-    exact ⟨trivial, sinsertL_abs_false _ _ _ _ hwf⟩
+  have hl := (levels_spec f hg).2 hv
+  cases hd : checkSys f with
+  | true => rw [subscribe_of_sys _ _ _ _ _ hd]; exact ⟨rfl, List.Perm.refl _⟩
+  | false =>
+    rw [subscribe_of_not_sys _ _ _ _ _ hd]
+    unfold SNode.sinsert
+    cases validQos q with
+    | false => exact ⟨rfl, List.Perm.refl _⟩
+    | true =>
+      simp only [Bool.not_true, Bool.false_eq_true, ↓reduceIte, hl]
+      exact ⟨trivial, sinsertL_abs_false _ _ _ _ hwf⟩
 
-/-- What the calls report, after any good history: `Subscribe` grants the
-requested QoS exactly for valid filters (and QoS <= 2), `Unsubscribe` succeeds
-exactly when the abstract store holds that (subscriber, filter) pair - the
-outcomes the specification's `step` prescribes (`granted q` / `ok` / `err`). -/
+/-- Topics beginning with '$' (outside the property's quantifier) are turned
+away by every entry point of the store, and the store is left exactly as it
+was - the behaviour the code had before finding B4 was repaired, now decided
+at the entry points instead of inside `nextTopicLevel`. -/
+theorem C06_dollar_topics_rejected (mt : MemTopics) (t : List UInt8) (hd : dollar t = true) :
+    (∀ mq q s, mt.subscribe mq t q s = (mt, none)) ∧ (∀ sub, mt.unsubscribe t sub = (mt, false)) ∧
+    (∀ q, mt.subscribers t q = none) ∧ (∀ m : RMsg, m.topic = t → mt.retain m = (mt, false)) ∧
+    mt.retained t = none :=
+  sys_rejected mt t hd
+
+example : dollar [36, 83, 89, 83] = true ∧ dollar [97, 47, 36, 98] = false := by decide
+
+/-- What the calls report, after any history without empty levels: for a `good`
+filter `Subscribe` grants the requested QoS exactly when the filter is valid
+(and QoS <= 2), `Unsubscribe` succeeds exactly when the abstract store holds
+that (subscriber, filter) pair - the outcomes the specification's `step`
+prescribes (`granted q` / `ok` / `err`). -/
 theorem C06_outcomes_partial (ops : List Op) (f : List UInt8) (q s : Nat)
-    (hg : ∀ op ∈ ops, good (opTopic op) = true) (hgf : good f = true) :
+    (hg : ∀ op ∈ ops, noEmptyLevel (opTopic op) = true) (hgf : good f = true) :
     ((mrun ops).subscribe 2 f q s).2 = (if q ≤ 2 ∧ validFilter f = true then some q else none) ∧
     ((mrun ops).unsubscribe f (some s)).2 = (srun ops).subs.any (fun e => e.sub == s && e.filter == f) :=
-  ⟨subscribe_outcome (mrun ops) f q s hgf, unsubscribe_outcome (mrun ops) (srun ops).subs f s (run_inv ops hg) hgf⟩
+  ⟨subscribe_outcome (mrun ops) f q s hgf,
+    unsubscribe_outcome (mrun ops) (srun ops).subs f s (run_inv_any ops hg) hgf⟩
 
-/-- non-vacuity: a history with re-subscription, removal and an invalid filter -/
+/-- non-vacuity: a history with re-subscription, removal, an invalid filter, a
+'$'-led level below the first ("a/$b") and a filter beginning with '$'
+("$SYS/#", turned away) -/
 example :
     let ops : List Op := [.sub [97, 47, 43] 1 1, .sub [97, 47, 35] 2 2, .sub [97, 47, 43] 0 1,
-                          .sub [97, 35] 1 3, .sub [97, 47, 98, 43] 1 5, .sub [98] 1 4, .unsub [98] 4]
-    (∀ op ∈ ops, good (opTopic op) = true) ∧ good [97, 47, 98] = true ∧ validName [97, 47, 98] = true ∧
-      (mrun ops).subscribers [97, 47, 98] 1 = some [(1, 0), (2, 1)] := by decide
+                          .sub [97, 35] 1 3, .sub [97, 47, 98, 43] 1 5, .sub [98] 1 4, .unsub [98] 4,
+                          .sub [97, 47, 36, 98] 2 6, .sub [36, 83, 89, 83, 47, 35] 1 7]
+    (∀ op ∈ ops, noEmptyLevel (opTopic op) = true) ∧ good [97, 47, 98] = true ∧ validName [97, 47, 98] = true ∧
+      (mrun ops).subscribers [97, 47, 98] 1 = some [(1, 0), (2, 1)] ∧
+      good [97, 47, 36, 98] = true ∧ validName [97, 47, 36, 98] = true ∧
+      (mrun ops).subscribers [97, 47, 36, 98] 1 = some [(1, 0), (2, 1), (6, 1)] ∧
+      (srun ops).subs.length = 3 := by decide
 
 /-! ### 4. the byte state machine against `split` -/
 
-/-- For byte strings without empty levels and without '$'-led levels, iterating
-`nextTopicLevel` yields the specification's levels and succeeds exactly on the
-valid filters. -/
-theorem C06_levels_spec (s : List UInt8) (hg : good s = true) :
+/-- For byte strings without empty levels, iterating `nextTopicLevel` yields
+the specification's levels and succeeds exactly on the valid filters ('$' is an
+ordinary byte, wherever it stands). -/
+theorem C06_levels_spec (s : List UInt8) (hg : noEmptyLevel s = true) :
     (validFilter s = true ↔ levels s = (split s, true)) ∧
     (validFilter s = false ↔ (levels s).2 = false) := by
   obtain ⟨h1, h2⟩ := levels_spec s hg
@@ -190,8 +223,12 @@ theorem C06_levels_spec (s : List UInt8) (hg : good s = true) :
     | false => rfl
     | true => have := h1 hv; rw [this] at h; exact absurd h (by simp)
 
-example : good [97, 47, 43, 47, 35] = true ∧ validFilter [97, 47, 43, 47, 35] = true ∧
-    good [97, 43] = true ∧ validFilter [97, 43] = false := by decide
+example : noEmptyLevel [97, 47, 43, 47, 35] = true ∧ validFilter [97, 47, 43, 47, 35] = true ∧
+    noEmptyLevel [97, 43] = true ∧ validFilter [97, 43] = false := by decide
+
+/-- `good` is exactly: no empty level, and the first byte is not '$'. -/
+theorem C06_good_iff (s : List UInt8) : good s = true ↔ noEmptyLevel s = true ∧ dollar s = false :=
+  good_iff s
 
 /-- The full statement (without the restriction) - `levels` is `split` on valid filters. -/
 def C06_levels_full : Prop := ∀ s : List UInt8, validFilter s = true → levels s = (split s, true)
@@ -201,9 +238,22 @@ theorem C06_levels_counterexample_empty_level :
     validFilter [47, 97] = true ∧ levels [47, 97] = ([SWC, [97]], true) ∧ split [47, 97] = [[], [97]] ∧
     validFilter [97, 47] = true ∧ levels [97, 47] = ([[97]], true) ∧ split [97, 47] = [[97], []] := by decide
 
-/-- B4: a '$'-led level below the first ("a/$b", valid per 4.7.2) is an error. -/
-theorem C06_levels_counterexample_dollar_level :
-    validFilter [97, 47, 36, 98] = true ∧ (levels [97, 47, 36, 98]).2 = false := by decide
+/-- B4, repaired: a '$'-led level below the first ("a/$b", valid per 4.7.2) is
+an ordinary level - the walk yields the specification's levels; "a/$b" is good;
+a subscription to it is granted and a PUBLISH on it reaches that subscriber
+and nobody else ("a/+" matches it, "a/b" does not); it can hold a retained
+message; and a level that starts with a wildcard still may not continue with
+'$' ("+$x", "a/#$"). -/
+theorem C06_dollar_level_literal :
+    validFilter [97, 47, 36, 98] = true ∧ good [97, 47, 36, 98] = true ∧
+    levels [97, 47, 36, 98] = (split [97, 47, 36, 98], true) ∧
+    (MemTopics.new.subscribe 2 [97, 47, 36, 98] 1 7).2 = some 1 ∧
+    (mrun [.sub [97, 47, 36, 98] 1 7, .sub [97, 47, 43] 2 8, .sub [97, 47, 98] 2 9]).subscribers [97, 47, 36, 98] 2 =
+      some [(7, 1), (8, 2)] ∧
+    (mrun [.sub [97, 47, 36, 98] 1 7]).subscribers [97, 47, 98] 2 = some [] ∧
+    ((mrun [.retain [97, 47, 36, 98] 1 [5]]).retained [97, 47, 35]).map (·.map toRet) =
+      some [⟨[97, 47, 36, 98], 1, [5]⟩] ∧
+    (levels [43, 36, 120]).2 = false ∧ (levels [97, 47, 35, 36]).2 = false := by decide
 
 theorem C06_levels_full_counterexample : ¬ C06_levels_full := by
   intro h
@@ -258,12 +308,14 @@ theorem C06_retained_pruned_preserved (n : RNode) (ls : List Level) (hwf : RWF n
     (∀ m, RPruned (n.rinsertL ls true m)) ∧ (∀ ok, RPruned (n.rremoveL ls ok).1) :=
   ⟨fun m => rinsertL_RPruned ls m n hp, fun ok => rremoveL_RPruned ls ok n hwf hp⟩
 
-/-- Over histories of good operations the retained trie holds exactly the
-abstract store's retained messages (the last non-empty message per topic). -/
-theorem C06_retained_store_refines (ops : List Op) (hg : ∀ op ∈ ops, goodOp op = true) :
+/-- Over histories of admitted operations (`okOp`: no empty level, retained
+topics are valid names; topics beginning with '$' may occur) the retained trie
+holds exactly the abstract store's retained messages (the last non-empty
+message per topic). -/
+theorem C06_retained_store_refines (ops : List Op) (hg : ∀ op ∈ ops, okOp op = true) :
     RWF (mrun ops).rroot ∧
     (absR (mrun ops).rroot).Perm ((srun ops).rets.map (fun r => (split r.topic, toRMsg r))) :=
-  ⟨(run_rinv ops hg).wf, (run_rinv ops hg).perm⟩
+  ⟨(run_rinv_any ops hg).wf, (run_rinv_any ops hg).perm⟩
 
 /-- The full statement of the retained part of C06. -/
 def C06_retained_full : Prop :=
@@ -284,21 +336,23 @@ theorem C06_retained_full_counterexample : ¬ C06_retained_full := by
   cases hr
   exact absurd hp.length_eq (by decide)
 
-/-- The part that holds: after any history of good operations (no empty
-level, no '$'-led level, retained topics are valid names) and for every such
-valid filter, `Retained` returns exactly the last non-empty message of every
-topic matching the filter under section 4.7. -/
+/-- The part that holds: after any history of admitted operations (`okOp`: no
+empty level, retained topics are valid names) and for every valid filter
+without empty levels that does not begin with '$' (`good`), `Retained` returns
+exactly the last non-empty message of every topic matching the filter under
+section 4.7. -/
 theorem C06_retained_partial (ops : List Op) (f : List UInt8)
-    (hg : ∀ op ∈ ops, goodOp op = true) (hgf : good f = true) (hv : validFilter f = true) :
+    (hg : ∀ op ∈ ops, okOp op = true) (hgf : good f = true) (hv : validFilter f = true) :
     ∃ r, (mrun ops).retained f = some r ∧
       (r.map toRet).Perm ((srun ops).rets.filter (fun r => topicMatches f r.topic)) :=
-  retained_refines (mrun ops) (srun ops).rets f (run_rinv ops hg) hgf hv
+  retained_refines (mrun ops) (srun ops).rets f (run_rinv_any ops hg) hgf hv
 
-/-- non-vacuity: replace, clear a child (the parent's message survives), query with `#` and `+` -/
+/-- non-vacuity: replace, clear a child (the parent's message survives), a
+retained PUBLISH on "$S" (turned away), query with `#` and `+` -/
 example :
     let ops : List Op := [.retain [97] 1 [1], .retain [97, 47, 98] 0 [2], .retain [97, 47, 98] 0 [3],
-                          .retain [97, 47, 99] 1 [4], .retain [97, 47, 99] 0 []]
-    (∀ op ∈ ops, goodOp op = true) ∧ good [97, 47, 35] = true ∧ validFilter [97, 47, 35] = true ∧
+                          .retain [97, 47, 99] 1 [4], .retain [97, 47, 99] 0 [], .retain [36, 83] 1 [9]]
+    (∀ op ∈ ops, okOp op = true) ∧ good [97, 47, 35] = true ∧ validFilter [97, 47, 35] = true ∧
       ((mrun ops).retained [97, 47, 35]).map (·.map toRet) = some [⟨[97], 1, [1]⟩, ⟨[97, 47, 98], 0, [3]⟩] ∧
       ((mrun ops).retained [97, 47, 43]).map (·.map toRet) = some [⟨[97, 47, 98], 0, [3]⟩] := by decide
 
